@@ -256,13 +256,13 @@ def handle (j : Json) : R Json := do
   | "record" =>
     let r ← recOfJson (← fld j "rec")
     let w1 := writeRecord r
-    let r1 : E Rec := do readRecord r.len r.circular (← w1)
+    let r1 : E Rec := do readRecordT (boolFD j "bacteria" true) r.len r.circular (← w1)
     let w2 : E (List Bio) := do writeRecord (← r1)
     -- JSON path of the model: every feature through feature_to_json / feature_from_json
     let rj : E Rec := do
       let bs ← w1
       match bs.mapM (fun b => featureFromJson (featureToJson b)) with
-      | some bs' => readRecord r.len r.circular bs'
+      | some bs' => readRecordT (boolFD j "bacteria" true) r.len r.circular bs'
       | none => throw "value-error"
     -- the record the spec compares with: the input, unless the harness sends a reduced one (features
     -- belonging to a recorded finding taken out on both sides)
